@@ -79,6 +79,7 @@ type Obligation struct {
 	Cases  []Term // optional case split (conditions of the control-flow edges merged just before): tried when the whole goal is undecided
 	Model  []ModelVar
 	ClauseProps []string
+	Group  string // proof group of the clause (Clause.Group)
 }
 
 type ModelVar struct {
@@ -150,6 +151,16 @@ func (e *Enc) anchored(fr *Frame, kind string, ins ssa.Instruction, st *State, r
 		}
 		ctx := e.frameCtx(fr, st, fr.curBlock, fr.curIdx, nil)
 		ctx.what = fmt.Sprintf("assert at %s %s#%d in %s", kind, aa.Callee, aa.N, contractName(fr.fn))
+		if kind == "call" {
+			// $arg0, $arg1, ...: the argument values of the anchored call (an
+			// argument is often an unnamed intermediate value)
+			if ci, ok := ins.(ssa.CallInstruction); ok {
+				for k, a := range ci.Common().Args {
+					v := e.val(fr, a)
+					ctx = ctx.bindName(fmt.Sprintf("$arg%d", k), CE{T: v.T, Typ: a.Type(), P: v.P, Fn: v.Fn})
+				}
+			}
+		}
 		g := e.compileBool(ctx, aa.Clause.Expr)
 		o := e.addObl(fr, "assert", implies(reach, g), aa.Clause.Src, ins.Pos(), aa.Clause.Props)
 		o.Name = fmt.Sprintf("%s/assert@%s:%s#%d", contractName(e.top), kind, aa.Callee, fr.ord[ins])
@@ -290,6 +301,7 @@ func (e *Enc) storeCell(st *State, ptr Term, t types.Type, v Term) {
 	h := e.heapOf(st, t)
 	nh := fmt.Sprintf("(store %s (pref %s) (store (select %s (pref %s)) (pidx %s) %s))", h, ptr, h, ptr, ptr, v)
 	e.set(st, e.B.heapName(t), e.B.heapSort(t), nh)
+	e.storeSumFacts(e.B.sortOf(t), fmt.Sprintf("(select %s (pref %s))", h, ptr), "(pidx "+ptr+")", v)
 }
 
 func (e *Enc) getPlace(st *State, p *Place) Term {
@@ -345,7 +357,8 @@ func (e *Enc) wf(v Term, t types.Type, st *State, depth int) Term {
 			return ii.inRange(v)
 		}
 		if u.Info()&types.IsString != 0 {
-			return "(>= (strlen " + v + ") 0)"
+			// a string's length is a non-negative int (the runtime cannot make a longer one)
+			return "(and (>= (strlen " + v + ") 0) (<= (strlen " + v + ") 9223372036854775807))"
 		}
 	case *types.Pointer:
 		return "(and (>= (pref " + v + ") " + e.alloc(st) + ") (>= (pidx " + v + ") 0))"
